@@ -137,6 +137,8 @@ def run(plan):
     dev = RefDevice(version=version, device_id=cfg["device_id"], token=token, key=key, nonce_seed=b"cli")
     for k, v in cfg["state"].items():
         dev.state[k] = v
+    if "caps_pages" in cfg:
+        dev.caps_pages = [([(cid, bytes.fromhex(v)) for cid, v in recs], add) for recs, add in cfg["caps_pages"]]
     if cfg.get("chatty") and version == 3:
         # a device that prefixes every response with an unsolicited report of its current state (same segment)
         dev.default_directive = {"pre": ["unsol_state"]}
@@ -270,6 +272,8 @@ def space(tier):
             cfg["capabilities"] = True
             cfg["caps_pages"] = [[rng.choice([[[0x0214, "01"], [0x0215, "01"]], [[0x0210, "07"], [0x0214, "01"]],
                                               [[0x0210, "05"], [0x0212, "01"]], [[0x0210, "01"]]]), None]]
+            if rng.random() < 0.2:
+                cfg["caps_pages"] = []          # older firmware: the capability query is never answered
         return {"config": cfg, "settings": settings, "effects": effects, "valid": True}
     sp.add("valid", 12000 if tier == "quick" else 800_000, valid)
 
